@@ -32,7 +32,13 @@ impl Subject for BufSubject {
     /// (capacity, initially closed)
     type Cfg = (usize, bool);
     fn fresh(cfg: &(usize, bool)) -> Self {
-        let buf = if cfg.1 { EventBuffer::with_capacity_closed(cfg.0) } else { EventBuffer::with_capacity(cfg.0) };
+        // Capacity 16 stands for the default constructors.
+        let buf = match (cfg.0, cfg.1) {
+            (16, false) => EventBuffer::new(),
+            (16, true) => EventBuffer::new_closed(),
+            (c, true) => EventBuffer::with_capacity_closed(c),
+            (c, false) => EventBuffer::with_capacity(c),
+        };
         let w1 = buf.writer();
         let w2 = w1.clone();
         BufSubject { buf, w1, w2, cap: cfg.0, model: VecDeque::new(), open: !cfg.1, n: 0 }
@@ -161,7 +167,7 @@ impl Subject for SlotSubject {
 }
 
 pub fn check(depth: usize) -> Vec<Outcome> {
-    let cfgs: Vec<(usize, bool)> = vec![(1, false), (2, false), (3, false), (1, true), (2, true)];
+    let cfgs: Vec<(usize, bool)> = vec![(1, false), (2, false), (3, false), (1, true), (2, true), (16, false), (16, true)];
     vec![
         explore::<BufSubject>("event_buffer", &cfgs, depth),
         explore::<SlotSubject>("event_slot", &[false, true], depth + 1),
